@@ -117,10 +117,14 @@ impl<F: FixedChannelRegion> RegionHandler for FixedChannelPlan<F> {
         ch_mask: ChannelMask<2>,
     ) -> Option<()> {
         match ch_mask_ctl {
-            0..=4 => {
+            0..=3 => {
                 let base_index = ch_mask_ctl as usize * 2;
                 channel_mask.set_bank(base_index, ch_mask.get_index(0));
                 channel_mask.set_bank(base_index + 1, ch_mask.get_index(1));
+            }
+            4 => {
+                // Channels 64 to 71 (500 kHz); the 8 MSBs of the ChMask are RFU
+                channel_mask.set_bank(8, ch_mask.get_index(0));
             }
             5 => {
                 // Each of the 8 LSBs controls a bank of 8 125 kHz channels plus the
